@@ -117,24 +117,82 @@ def run(rep: core.Report):
                  "the loops do not visit every pair j >= i, diagonal included: the imaginary part of a diagonal element (or a whole pair) is left as the kernel produced it, so D(q) is not Hermitian for force constants without permutation symmetry", line=tu.line(mh))
 
     # R03c
+    masses_setter(rep, "R03c")
+
+
+
+def masses_setter(rep, rid):
+    """Phonopy.masses setter (shared with C16): flow-sensitive provenance of what each cell receives."""
     cls = core.find_def(API, "Phonopy")
     ms = [m for m in cls.body if isinstance(m, ast.FunctionDef) and m.name == "masses" and core._is_property_setter(m)]
     if not ms:
         raise AnalysisError("anchor vanished: Phonopy.masses setter")
     m = ms[0]
-    tr2 = symalg.OpenPyTranslator(where="masses.setter")
-    env2 = tr2.summary(m)
-    calls = {core.src(c.func): core.src(c.args[0]) for c in ast.walk(m) if isinstance(c, ast.Call) and core.src(c.func).endswith(".set_masses") and c.args}
-    rep.instance("R03c", API, "Phonopy.masses.setter", f"set_masses on {sorted(calls)}", set(calls) == {"self._primitive.set_masses", "self._supercell.set_masses", "self._unitcell.set_masses"},
-                 "the new masses do not reach all of primitive, supercell and unit cell", line=m.lineno)
-    smass = env2.get("s_masses")
-    rep.instance("R03c", API, "Phonopy.masses.setter", "supercell masses = primitive masses taken through p2p_map[s2p_map[.]]", smass is not None and "p2p_map" in str(smass) and "s2p_map" in str(smass),
-                 "supercell masses are not derived from the primitive ones through the supercell->primitive index maps", line=m.lineno)
-    umass = env2.get("u_masses")
-    rep.instance("R03c", API, "Phonopy.masses.setter", "unit-cell masses = supercell masses at u2s_map", umass is not None and "u2s_map" in str(umass), "unit-cell masses are not the supercell masses at u2s_map", line=m.lineno)
-    order = [c.lineno for c in ast.walk(m) if isinstance(c, ast.Call) and core.src(c.func).endswith(".set_masses")]
-    rb = [c.lineno for c in ast.walk(m) if isinstance(c, ast.Call) and core.src(c.func) == "self._set_dynamical_matrix"]
-    rep.instance("R03c", API, "Phonopy.masses.setter", "all cells are updated before the dynamical matrix is rebuilt", bool(rb) and max(order) < min(rb), "the rebuild precedes a mass update", line=m.lineno)
+    par = m.args.args[1].arg
+    CELLS_ = ("self._primitive", "self._supercell", "self._unitcell")
+    env: dict = {}      # local -> (set of provenance tags, set of index maps it went through)
+    updated: dict = {}  # cell -> (tags, maps, line)
+    rebuild_line = None
+
+    def prov(e):
+        tags, maps = set(), set()
+        for x in ast.walk(e):
+            if isinstance(x, ast.Name):
+                if x.id == par:
+                    tags.add("new")
+                elif x.id in env:
+                    tags |= env[x.id][0]
+                    maps |= env[x.id][1]
+            elif isinstance(x, ast.Attribute):
+                t = core.src(x)
+                if x.attr == "masses" and core.src(x.value) in CELLS_:
+                    c = core.src(x.value)
+                    if c in updated:
+                        tags |= updated[c][0]
+                        maps |= updated[c][1]
+                    else:
+                        tags.add(f"stale:{c}")
+                if x.attr in ("p2p_map", "s2p_map", "u2s_map", "p2s_map", "s2u_map", "u2u_map"):
+                    maps.add(x.attr)
+        return tags, maps
+
+    def walk(stmts):
+        nonlocal rebuild_line
+        for st in stmts:
+            if isinstance(st, ast.Assign) and len(st.targets) == 1:
+                t = st.targets[0]
+                if isinstance(t, ast.Name):
+                    env[t.id] = prov(st.value)
+                elif isinstance(t, ast.Attribute) and t.attr == "masses" and core.src(t.value) in CELLS_:
+                    tg, mp = prov(st.value)
+                    updated[core.src(t.value)] = (tg, mp, st.lineno)
+            elif isinstance(st, ast.Expr) and isinstance(st.value, ast.Call):
+                c = st.value
+                f = core.src(c.func)
+                if f.endswith(".set_masses") and f[: -len(".set_masses")] in CELLS_ and c.args:
+                    tg, mp = prov(c.args[0])
+                    updated[f[: -len(".set_masses")]] = (tg, mp, st.lineno)
+                elif f == "self._set_dynamical_matrix" and rebuild_line is None:
+                    rebuild_line = st.lineno
+            elif isinstance(st, ast.If):
+                walk(st.body)
+                walk(st.orelse)
+            for c in ast.walk(st) if isinstance(st, ast.If) else []:
+                pass
+
+    walk(m.body)
+    rep.instance(rid, API, "Phonopy.masses.setter", f"cells that receive masses: {sorted(updated)}", set(updated) == set(CELLS_),
+                 f"the new masses do not reach all of primitive, supercell and unit cell (only {sorted(updated)})", line=m.lineno)
+    for cell, need, what in (("self._primitive", set(), "the caller's masses"), ("self._supercell", {"p2p_map", "s2p_map"}, "the new primitive masses taken through p2p_map[s2p_map[.]]"), ("self._unitcell", {"u2s_map"}, "the new supercell masses at u2s_map")):
+        if cell not in updated:
+            continue
+        tg, mp, ln = updated[cell]
+        stale = sorted(t for t in tg if t.startswith("stale:"))
+        ok = "new" in tg and not stale and need <= mp
+        rep.instance(rid, API, "Phonopy.masses.setter", f"{cell} receives {what}", ok,
+                     (f"the value stored in {cell} is read from {stale[0][6:]}.masses before that cell has received the new masses: {cell} keeps the previous masses, so what save() writes for it disagrees with the other cells and load(), which rebuilds everything from the unit cell, reverts to the old masses" if stale else f"the value stored in {cell} is not {what} (provenance {sorted(tg)}, index maps {sorted(mp)})"), line=ln)
+    last = max((v[2] for v in updated.values()), default=0)
+    rep.instance(rid, API, "Phonopy.masses.setter", "all cells are updated before the dynamical matrix is rebuilt", rebuild_line is not None and last < rebuild_line, "the rebuild is missing or precedes a mass update", line=m.lineno)
 
 
 def _r03d(rep):
@@ -214,7 +272,7 @@ def selftest():
     V.append(dict(name="time-reversal half with np.transpose", kind="neutral", file=SYMF, old="            reciprocal_rotations += [-rot.T for rot in ptg_ops]", new="            reciprocal_rotations += [-np.transpose(rot) for rot in ptg_ops]"))
     b("derivative symmetrisation starts at the component index", DDM, "        for (j = 0; j < num_patom * 3; j++) {\n            for (k = 0; k < num_patom * 3; k++) {\n                adrs = i * num_patom * num_patom * 9", "        for (j = i; j < num_patom * 3; j++) {\n            for (k = 0; k < num_patom * 3; k++) {\n                adrs = i * num_patom * num_patom * 9", "R03a", "visits every pair")
     V.append(dict(name="derivative symmetrisation over the upper triangle", kind="neutral", file=DDM, old="            for (k = 0; k < num_patom * 3; k++) {\n                adrs = i * num_patom * num_patom * 9", new="            for (k = j; k < num_patom * 3; k++) {\n                adrs = i * num_patom * num_patom * 9"))
-    b("unit cell masses not updated", API, "        self._unitcell.set_masses(u_masses)\n", "", "R03c", "set_masses")
+    b("unit cell masses not updated", API, "        self._unitcell.set_masses(u_masses)\n", "", "R03c", "cells that receive masses")
     from rules import shared_trunc
 
     shared_trunc.variants(b, None, "R03e")
